@@ -70,8 +70,8 @@ func c07Specs(tier string) []*h.SeqSpec {
 			ops = append(ops, opDeleteMan("C07", repo, f, "I1"), opPushMan("C07", repo, f, "I1", "base"))
 			if store == "dir" {
 				ops = append(ops, h.Op{Name: "restart", Do: func(w *h.World) []h.Violation {
-					if err := w.Reopen(); err != nil {
-						return []h.Violation{h.V("restart", "close-error", "Close returned %v", err)}
+					if vs := closeViolation(w.Reopen()); vs != nil {
+						return vs
 					}
 					// the directory store collects every repository when it is closed
 					regM(w).Repo(repo).AfterCollection(f)
